@@ -20,9 +20,8 @@
 (* list once (correct only for ascending creation order).                  *)
 (*                                                                         *)
 (* Actions = application calls: NegBoth(id) (both sides create the         *)
-(* negotiated channel id), Inband(side), Drop(side, k) (the k-th channel   *)
-(* created on that side is dropped by the application: its id may be       *)
-(* reused), Connect.  Behaviours up to MaxOps calls are the replay         *)
+(* negotiated channel id), Inband(side), DropBoth(tag) (both applications  *)
+(* give the channel up: its id may be reused), Connect.  Behaviours up to MaxOps calls are the replay         *)
 (* programs.                                                               *)
 (***************************************************************************)
 EXTENDS Naturals, Sequences, FiniteSets, TLC
@@ -77,11 +76,15 @@ Inband(s) ==
   /\ hist' = Append(hist, [op |-> "inband", id |-> 0, side |-> s, k |-> 0])
   /\ UNCHANGED connected
 
-Drop(s, k) ==
+\* The applications give a channel up on BOTH sides (close / drop of every handle): only then is its id free
+\* again.  A channel dropped on one side only is an inconsistency of the application's own making (the other
+\* side still uses the stream); the contract says nothing about it, so the programs do not contain it.
+DropBoth(t) ==
   /\ Bounded
-  /\ k \in 1..Len(live[s]) /\ live[s][k].alive /\ live[s][k].by \in {s, "AB"}
-  /\ live' = [live EXCEPT ![s][k].alive = FALSE]
-  /\ hist' = Append(hist, [op |-> "drop", id |-> live[s][k].id, side |-> s, k |-> k])
+  /\ \E s \in Side : \E k \in 1..Len(live[s]) : live[s][k].alive /\ live[s][k].tag = t
+  /\ live' = [s \in Side |-> [k \in 1..Len(live[s]) |->
+                 IF live[s][k].tag = t THEN [live[s][k] EXCEPT !.alive = FALSE] ELSE live[s][k]]]
+  /\ hist' = Append(hist, [op |-> "dropboth", id |-> 0, side |-> "AB", k |-> t])
   /\ UNCHANGED <<connected, nextTag>>
 
 Connect ==
@@ -91,7 +94,7 @@ Connect ==
   /\ hist' = Append(hist, [op |-> "connect", id |-> 0, side |-> "AB", k |-> 0])
   /\ UNCHANGED <<live, nextTag>>
 
-Next == (\E id \in Ids : NegBoth(id)) \/ (\E s \in Side : Inband(s)) \/ (\E s \in Side : \E k \in 1..MaxOps : Drop(s, k)) \/ Connect
+Next == (\E id \in Ids : NegBoth(id)) \/ (\E s \in Side : Inband(s)) \/ (\E t \in 1..MaxOps : DropBoth(t)) \/ Connect
 Spec == Init /\ [][Next]_vars
 
 UniqueLive == \A s \in Side : \A c, d \in LiveOf(s) : c.id = d.id => c = d
